@@ -28,6 +28,9 @@ THash == /\ IsEvent("hash") /\ Keep
             /\ (Ev.alg = "sha256" /\ Len(m) <= REFMAX) => d = R!Sha256Ref(m)
             /\ Ev.counts = Sums(Ev.cuts, 1, 0)
             /\ Ev.zero
+            \* a copy of the context finalised after the i-th update gives the digest of the prefix fed so far (contexts are plain
+            \* values: the driver also moves the live context to another address between any two updates)
+            /\ (Has("pdig") => \A i \in 1..Len(Ev.pdig) : B(Ev.pdig[i]) = H!Digest(Ev.alg, SubSeq(m, 1, Ev.counts[i])))
 \* very long messages (the context's bit counter carries into its high word): a periodic pattern fed in chunks, the digest of the
 \* same pattern computed by the JDK
 THashBig == IsEvent("hashbig") /\ Keep /\ B(Ev.digest) = DigestOfPattern(Ev.alg, Ev.len) /\ Ev.zero
@@ -35,11 +38,13 @@ THmac == /\ IsEvent("hmac") /\ Keep
          /\ LET d == H!Hmac(Ev.alg, B(Ev.key), B(Ev.msg)) IN
             /\ B(Ev.digest) = d /\ B(Ev.oneshot) = d /\ Ev.zero
             /\ B(Ev.overmsg) = d /\ B(Ev.overkey) = d             \* also when the digest is written over the message or over the key
+            /\ (Has("pdig") => \A i \in 1..Len(Ev.pdig) : B(Ev.pdig[i]) = H!Hmac(Ev.alg, B(Ev.key), SubSeq(B(Ev.msg), 1, Ev.pdo[i])))
 TPbkdf2 == IsEvent("pbkdf2") /\ Keep /\ B(Ev.out) = H!Pbkdf2(B(Ev.pass), B(Ev.salt), Ev.c, Ev.dklen)
 \* the algebraic definition decides messages up to 300 bytes (and there agrees with the primitive); longer ones use the primitive
 TCrc == /\ IsEvent("crc") /\ Keep
         /\ LET m == B(Ev.msg) IN
-           IF Len(m) <= 300 THEN H!CrcOK(m, B(Ev.out)) /\ B(Ev.out) = Crc32cBytes(m) ELSE B(Ev.out) = Crc32cBytes(m)
+           /\ IF Len(m) <= 300 THEN H!CrcOK(m, B(Ev.out)) /\ B(Ev.out) = Crc32cBytes(m) ELSE B(Ev.out) = Crc32cBytes(m)
+           /\ (Has("pdig") => \A i \in 1..Len(Ev.pdig) : B(Ev.pdig[i]) = Crc32cBytes(SubSeq(m, 1, Ev.pdo[i])))   \* read through a copy of the context
 \* C02
 TAes == /\ IsEvent("aes") /\ Keep /\ B(Ev.out) = AESEncryptBlock(B(Ev.key), B(Ev.in)) /\ Ev.tainted = 0
         /\ B(Ev.out) = X!AesRefEncrypt(B(Ev.key), B(Ev.in))
